@@ -397,7 +397,11 @@ Definition chk_const (p : prim) (raw : string) (impl_accept : bool) : N :=
   match range_check p raw with
   | None => 1
   | Some m =>
-      if negb (Bool.eqb m impl_accept) then 1
+      if negb (Bool.eqb m impl_accept) then
+        match int_bits p with
+        | Some _ => if Bool.eqb (spec_accept_int p raw) impl_accept then 1 else 4   (* 4: the Spec disagrees too *)
+        | None => 1
+        end
       else match int_bits p with
            | Some _ => if Bool.eqb (spec_accept_int p raw) impl_accept then 0 else 2
            | None => if impl_accept && l_hex (parse_literal raw) then 3 else 0
